@@ -33,13 +33,16 @@ type c10step struct {
 	file   string
 }
 
-var c10Regexps = []string{"main", "foo", "bar|baz", "runtime", "lib", "^main\\.run$", "zzz", "T", "malloc", "\\.go"}
+var c10Regexps = []string{"main", "foo", "bar|baz", "runtime", "lib", "^main\\.run$", "zzz", "T", "malloc", "\\.go", "main(", "[a", "*x"}
 var c10TagRx = []string{"v1", "tenant", "k=v1", "k2", "bytes", "1kb:", "n=16:4096", "a b", "zzz"}
 
 func genC10Assign(t *simrt.Tape, sampleTypes []string) string {
 	K := simrt.KGen
 	rx := func() string { return c10Regexps[t.Choose(K, len(c10Regexps))] }
 	trx := func() string { return c10TagRx[t.Choose(K, len(c10TagRx))] }
+	if t.Bool(K, 15) {
+		return []string{"relative_percentages", "tagroot=k", "tagroot=tenant", "tagleaf=k", "divide_by=0", "divide_by=1", "tagshow=(", "taghide=[", "tagshow=", "relative_percentages=false"}[t.Choose(K, 10)]
+	}
 	switch t.Choose(K, 30) {
 	case 0:
 		return "focus=" + rx()
